@@ -552,7 +552,12 @@ def mon_c10(ex, info, col):
         if "allocated" not in phs:
             continue
         working, sa = phs["allocated"]
-        if working is False:
+        # whether step t is a project-wide absence step is decided by the list given to simulate(), not by the library's flag
+        col.checks["c10.step-kind"] += 1
+        if (t in absn) != (working is False):
+            out.append(V("C10", "C10:project-absence-step-treated-as-working-step" if t in absn else "C10:working-step-treated-as-project-absence-step", ex,
+                         {"t": t, "absence_list": list(ex.opts.get("absence") or ()), "library_working_flag": working}))
+        if t in absn:
             col.checks["c10.absence-step"] += 1
             col.nontrivial.add(hash((info.key, "P", tuple(sorted((k, v[0], round(v[1], 6)) for k, v in sa["tasks"].items())))))
             su = phs.get("updated", (None, None))[1]
@@ -564,6 +569,8 @@ def mon_c10(ex, info, col):
                         out.append(V("C10", "C10:allocation-at-project-absence-step", ex, {"t": t, "task": tn, "before": su["tasks"][tn][2:4], "after": sa["tasks"][tn][2:4]}))
                 if su is not None and sr is not None:
                     d = su["tasks"][tn][1] - sr["tasks"][tn][1]
+                    if working is not False:
+                        continue  # already reported above as a step of the wrong kind
                     if not info.is_auto(tn):
                         if abs(d) > TOL:
                             out.append(V("C10", "C10:non-automatic-task-progressed-at-project-absence-step", ex, {"t": t, "task": tn, "decrease": d}))
